@@ -104,8 +104,10 @@ def _effective_edges(repo) -> dict[str, dict[str, tuple | None]]:
                 inherited: dict[str, tuple | None] = {}
                 for o in owners:
                     for callee, cond in eff_edges[o].items():
-                        if cond is None:
-                            inherited[callee] = None
+                        # (a conditional edge keeps its condition: it is checked at the
+                        # helper's own call of the callee)
+                        if callee not in inherited or cond is None:
+                            inherited[callee] = cond
                 if inherited:
                     eff_edges[q] = inherited
                     for o in owners:
